@@ -2,7 +2,6 @@ package router
 
 import (
 	"net/netip"
-	"sync"
 	"sync/atomic"
 	"time"
 
@@ -30,7 +29,7 @@ type RequestContext struct {
 
 var requestContextUid atomic.Uint32
 
-var requestContextPool sync.Pool = sync.Pool{New: func() any { return new(RequestContext) }}
+var requestContextPool pool.ObjPool = pool.ObjPool{New: func() any { return new(RequestContext) }}
 
 func getRequestContext() *RequestContext {
 	rc := requestContextPool.Get().(*RequestContext)
